@@ -172,6 +172,19 @@ def fill(claim, NA):
 		  "Trusted: Lean kernel + 3 axioms; harness. RNG: that NumPy's samplers realise their documented distributions and that empirical frequencies converge cannot be exhibited "
 		  "by an executable model (partial claim, see DESIGN.md); SciPy distribution objects; FFT convolution (1e-9). Variance additivity of the convolution is checked numerically only.")
 
+	claim('C15',
+		  "Theorems (Props/C15.lean) about Model/SingleStage.lean, the single-stage specialisation of the simulator model: single_stage_pathwise (for EVERY non-negative demand path "
+		  "a base-stock stage started at S has pipeline = the last L demands and IL = S - their sum), single_stage_cost (so each period is charged h(S-D)+ + p(D-S)+), expect_conv / "
+		  "expect_convMany_replicate (expectation under the L-fold convolution = iterated expectation over L independent demands), newsvendor_cost_is_expectation and "
+		  "single_stage_expected_cost (hence the expected period cost from period L on EQUALS the analytical newsvendor cost for lead-time demand - equality, not just a limit), "
+		  "ss_stage_chain_step + nextSt_matches (an (s,S) stage with L=1 follows exactly the C13 chain and is charged the integrand of G; with C13 avg_cost_converges its long-run "
+		  "expected average is g(s,S) with transient <= 2B/T). Tie: the real simulator run for thousands of periods on its own random demands vs the single-stage model path by path "
+		  "(IL, cost, order; exact), vs the network model Model/Sim.lean on a prefix (every state variable), exact expected cost of the model vs newsvendor_poisson_cost / "
+		  "newsvendor_discrete / s_s_cost_discrete, echelon-to-local conversion, per-period cost identity of the serial system; long-run average vs analytical within 8 batch-means "
+		  "standard errors (+ the proved transient bound) as supporting search.",
+		  "Trusted: Lean kernel + 3 axioms; harness; NumPy RNG (demands read back from the simulator's state). PARTIAL: the serial-system limit (Clark-Scarf: sim average -> SSM "
+		  "expected cost) is not a theorem - trajectory tied exactly to the network model, analytical value to the C07 evaluator and an exact top-down evaluation, the limit itself "
+		  "only within the statistical band; (s,S) for L>1 has no analytical counterpart in stockpyl; normal demand is compared in floating point only.")
 	claim('C07',
 		  "Theorems (Props/C07.lean) about the model of the Chen-Zheng recursion on the code's integer grid: stage_argmin (the level chosen for every stage is a first minimiser of that "
 		  "stage's cost row over the whole grid), eval_is_opt_with_fixed_S (evaluation mode with the optimiser's own level reproduces the optimiser's rows), reported_cost_def, "
